@@ -276,30 +276,58 @@ def id_guard(ctx, M, RULE):
                 if o[0] == "param":
                     hook_params.add((f.name, o[1]))
     hook_closures = {}
-    work = list(hook_params)
-    seen_hp = set(work)
-    while work:
-        fn_, pi = work.pop()
-        for g in F.fns.values():
-            for b, t in g.calls():
-                if t.get("rpath") != fn_ or t["res"] != "item" or len(t["args"]) < pi:
-                    continue
-                a = g.op_origin(t["args"][pi - 1])
-                if a[0] == "param" and g.kind != "Closure":
-                    if (g.name, a[1]) not in seen_hp:
-                        seen_hp.add((g.name, a[1]))
-                        work.append((g.name, a[1]))
-                elif a[0] == "agg" and a[1] in F.fns and F.fns[a[1]].kind == "Closure":
-                    hook_closures[a[1]] = g.where(b)
-                elif a[0] == "field" and a[1] == ("env",) and g.kind == "Closure":
-                    from core import closure_captures
-                    cc = closure_captures(F, g.name)
-                    v = cc[1].get(a[2]) if cc else None
-                    if v is not None and v[0] == "agg" and v[1] in F.fns and F.fns[v[1]].kind == "Closure":
-                        hook_closures[v[1]] = g.where(b)
-                    elif v is not None and v[0] == "param" and (cc[0].name, v[1]) not in seen_hp:
-                        seen_hp.add((cc[0].name, v[1]))
-                        work.append((cc[0].name, v[1]))
+    from core import closure_captures
+
+    def callers_of(fn_):
+        return [(g, b, t) for g in F.fns.values() for b, t in g.calls() if t.get("rpath") == fn_ and t["res"] == "item"]
+
+    seen_r = set()
+
+    def resolve_hook(g, e, where, depth=0):
+        """closures a callable-valued expression of g may denote: through parameters (every call site), struct fields of
+        parameters (the aggregate built by the caller), closure captures and references"""
+        key = (g.name, repr(strip_site(e)))
+        if key in seen_r or depth > 12:
+            return
+        seen_r.add(key)
+        while e[0] in ("ref", "deref") and len(e) >= 2 and isinstance(e[1], tuple):
+            e = e[1]
+        if e[0] == "agg" and e[1] in F.fns and F.fns[e[1]].kind == "Closure":
+            hook_closures.setdefault(e[1], where)
+            return
+        if e[0] == "param" and g.kind != "Closure":
+            for h, b, t in callers_of(g.name):
+                if len(t["args"]) >= e[1]:
+                    resolve_hook(h, h.op_origin(t["args"][e[1] - 1]), h.where(b), depth + 1)
+            return
+        if e[0] == "field" and e[1] == ("env",) and g.kind == "Closure":
+            cc = closure_captures(F, g.name)
+            if cc and e[2] in cc[1]:
+                resolve_hook(cc[0], cc[1][e[2]], where, depth + 1)
+            return
+        if e[0] == "field":
+            base = e[1]
+            while base[0] in ("ref", "deref") and len(base) >= 2 and isinstance(base[1], tuple):
+                base = base[1]
+            if base[0] == "agg":
+                fv = dict(base[3]).get(e[2])
+                if fv is not None:
+                    resolve_hook(g, fv, where, depth + 1)
+                return
+            if base[0] == "param" and g.kind != "Closure":
+                for h, b, t in callers_of(g.name):
+                    if len(t["args"]) >= base[1]:
+                        resolve_hook(h, ("field", h.op_origin(t["args"][base[1] - 1]), e[2]), h.where(b), depth + 1)
+                return
+            if base[0] == "field":
+                # a field of a field: resolve the inner aggregate first where it is built
+                inner = []
+                def collect(x):
+                    inner.append(x)
+                resolve_hook(g, ("field", base, e[2]) if False else base, where, depth + 1)
+            return
+    for fn_, pi in sorted(hook_params):
+        resolve_hook(F.fns[fn_], ("param", pi), F.fns[fn_].where())
     from sym import ipaths
     from storemodel import StoreModel
     S_remove = set(StoreModel(ctx).remove_fns)
